@@ -19,7 +19,11 @@
 EXTENDS Naturals, Sequences, FiniteSets
 
 Names == <<"Ordered", "AtMostOne", "GetOrAddIdempotent", "RemoveRemovesAll", "ChangeToLeavesExactlyOne">>
-CreatingOps == {"Insert", "Add", "PublicAdd", "GetOrAdd", "ChangeTo", "Hand"}
+CreatingOps == {"Insert", "Add", "PublicAdd", "GetOrAdd", "ChangeTo", "Hand", "HandGetOrAdd"}
+\* "HandGetOrAdd": a hand-written get-or-add KEYED by an index child (CT_SeriesComposite.get_or_add_dPt_for_point(k),
+\* CT_DLbls.get_or_add_dLbl_for_point(k)).  A keyed child is a tag of its own in the model ("c:dPt#2" = the c:dPt whose c:idx is 2,
+\* member of the slot of c:dPt); the sentence "get or add creates at most one child" is about the child with THAT key.
+GetOrAddOps == {"GetOrAdd", "HandGetOrAdd"}
 
 Has(kids, t) == \E i \in DOMAIN kids : kids[i] = t
 Count(kids, t) == Cardinality({i \in DOMAIN kids : kids[i] = t})
@@ -61,7 +65,7 @@ ImplStep(kids, op, d) ==
   CASE op = "Insert"    -> ImplInsert(kids, d)
     [] op = "Add"       -> ImplAdd(kids, d)
     [] op = "PublicAdd" -> ImplAdd(kids, d)                                            \* add_x() of OneOrMore = _add_x()
-    [] op = "GetOrAdd"  -> ImplGetOrAdd(kids, d)
+    [] op \in GetOrAddOps -> ImplGetOrAdd(kids, d)
     [] op = "RemoveAll" -> ImplRemove(kids, d)
     [] op = "ChangeTo"  -> ImplChangeTo(kids, d)
     [] op = "Hand"      -> ImplInsert(kids, d)      \* a hand-written adder (CT_GroupShape.add_*): builds the child, then
@@ -103,7 +107,7 @@ PlacedInOrder(c, kids, ch) ==
                                => Rk(c, kids[i]) <= Rk(c, kids[j])
 
 \* does this step have to create a child (and so place it)?
-Creates(s, op, d) == op \in {"Insert", "Add", "PublicAdd", "Hand"} \/ (op \in {"GetOrAdd", "ChangeTo"} /\ ~Has(s, d.child))
+Creates(s, op, d) == op \in {"Insert", "Add", "PublicAdd", "Hand"} \/ (op \in GetOrAddOps \cup {"ChangeTo"} /\ ~Has(s, d.child))
 
 \* the Ordered clause is stated for schema-permitted pre-states only
 OrderedJudged(c, d, s, op) == op \in CreatingOps /\ Known(c, d.child) /\ Creates(s, op, d) /\ PermittedFor(c, s, d.child)
@@ -119,10 +123,10 @@ HoldsJ(n, c, d, s, op, t, jd) ==
   CASE n = "Ordered" ->
          jd => (Has(t, d.child) /\ PlacedInOrder(c, t, d.child))
     [] n = "AtMostOne" ->            \* get-or-add creates at most one child; change-to never leaves two of the group
-         /\ op = "GetOrAdd" => Count(t, d.child) <= (IF Has(s, d.child) THEN Count(s, d.child) ELSE 1)
+         /\ op \in GetOrAddOps => Count(t, d.child) <= (IF Has(s, d.child) THEN Count(s, d.child) ELSE 1)
          /\ (op = "ChangeTo" /\ ChangeJudged(s, d)) => CountIn(t, d.group) <= 1
     [] n = "GetOrAddIdempotent" ->   \* a second get-or-add changes nothing
-         (op = "GetOrAdd" /\ Has(s, d.child)) => t = s
+         (op \in GetOrAddOps /\ Has(s, d.child)) => t = s
     [] n = "RemoveRemovesAll" ->
          op = "RemoveAll" => ~Has(t, d.child)
     [] n = "ChangeToLeavesExactlyOne" ->
@@ -140,6 +144,6 @@ OwnSlotFree(c, kids, ch) ==
      /\ (s.alt # 0 /\ \A x \in DOMAIN kids : Known(c, kids[x])) => OneAlternative(c, Append(kids, ch))
 OpEnabled(c, d, kids, op) ==
   CASE op \in {"Insert", "Add", "PublicAdd", "Hand"} -> OwnSlotFree(c, kids, d.child)
-    [] op = "GetOrAdd" -> Has(kids, d.child) \/ OwnSlotFree(c, kids, d.child)
+    [] op \in GetOrAddOps -> Has(kids, d.child) \/ OwnSlotFree(c, kids, d.child)
     [] OTHER -> TRUE
 =============================================================================
